@@ -10,7 +10,9 @@ REPO = os.environ.get('VERIF_REPO', '/repo')
 NCPU = int(os.environ.get('VERIF_JOBS', '16'))
 CXXDEFS = ['-std=c++11', '-I' + REPO + '/include', '-I' + ENGINE, '-DHAVE_PCAP_IMMEDIATE_MODE=1', '-DHAVE_PCAP_TIMESTAMP_PRECISION=1',
            '-Dtins_EXPORTS', '-DNDEBUG', '-DLIBTINS_VERIF']
-OPT_PIPE = 'function(sroa,early-cse,instsimplify,simplifycfg),cgscc(inline),function(sroa,early-cse,instsimplify,simplifycfg),globaldce'
+# no instcombine (type-punned wide accesses) and no simplifycfg (it speculates instructions into selects, which turns guarded source-level
+# shifts/loads into unconditional ones and would make CBMC's undefined-behaviour checks fire on code the source never executes)
+OPT_PIPE = 'function(sroa,early-cse,instsimplify),cgscc(inline),function(sroa,early-cse,instsimplify),globaldce'
 
 
 # never part of any claim: sending packets / waiting for replies (sockets, libpcap)
@@ -92,6 +94,7 @@ class Build:
             for f in sorted(files):
                 if f.endswith('.cpp'): srcs.append(os.path.join(root, f))
         srcs.sort()
+        srcs.append(os.path.join(ENGINE, 'stdlib_inst.cpp'))
         h = hashlib.sha256()
         for root in (os.path.join(REPO, 'src'), os.path.join(REPO, 'include')):
             for r, _, files in sorted(os.walk(root)):
@@ -102,9 +105,9 @@ class Build:
         os.makedirs(self.dir + '/ll', exist_ok=True); os.makedirs(self.dir + '/obj', exist_ok=True)
         jobs = []
         for s in srcs:
-            tag = os.path.relpath(s, REPO + '/src').replace('/', '_')[:-4]
+            tag = os.path.relpath(s, REPO + '/src').replace('/', '_')[:-4] if s.startswith(REPO) else 'vp_' + os.path.basename(s)[:-4]
             jobs.append(['clang++-14'] + CXXDEFS + ['-O1', '-Xclang', '-disable-llvm-passes', '-gline-tables-only', '-w', '-S', '-emit-llvm', s, '-o', '%s/ll/%s.ll' % (self.dir, tag)])
-            if native:
+            if native and s.startswith(REPO):
                 jobs.append(['g++'] + CXXDEFS + ['-O1', '-g1', '-fsanitize=address,undefined', '-fno-sanitize=vptr', '-fno-sanitize-recover=undefined', '-fno-omit-frame-pointer', '-w', '-c', s, '-o', '%s/obj/%s.o' % (self.dir, tag)])
         with ThreadPoolExecutor(NCPU) as ex:
             for r in ex.map(must, jobs): pass
